@@ -1,6 +1,7 @@
 """C08 — concurrent operations never strand or duplicate an order."""
 from . import conc
 from .concprop import *
+from .c03 import CoqJudges
 
 
 def queue_part(ck):
@@ -58,9 +59,119 @@ def queue_part(ck):
                                             schedule=k, model_says=v), note="no-failing-input-found")
 
 
+# ---- the statements handed to the extracted Coq judges (Spec/ConcJudges.v; Properties/Tie.v Tie_judge_handout*,
+# Tie_judge_cells*, Tie_judge_final_cells): per run, from the listing after the set-up, the map events of the scheduler's
+# log in trace order (insert / remove / get, with the thread that performed them) and the listing at quiescence.
+#   handout: no order is handed out by two successful removes without an insert in between, and only an order that was
+#            resting or inserted is handed out                    (handout_b <=> HandoutOnce: C08_no_double_handout,
+#                                                                  C08_handout_is_initial)
+#   cells:   every remove / get of an id observes exactly the order last inserted under that id and not removed since,
+#            and the listing at quiescence is the map so replayed  (cells_b, final_cells_b: C08_trace_cell for all ids)
+#   drained: the draining match after quiescence: if it comes back with quantity remaining nothing is left that displays
+#            quantity, and the aggregates it leaves are the sums over what remains   (drained_b <=> Drained:
+#                                                                  C08_drain_after_quiescence, C01_match)
+CJ = CoqJudges({"handout": "handed out at most once, handout_b",
+                "cells": "every remove / get observes the last insert; listing at quiescence = replayed map, cells_b + final_cells_b",
+                "drained": "draining match leaves nothing displayed and aggregates = sums over what remains, drained_b"})
+
+
+def map_events(info):
+    return [(tid, ev) for tid, ev in info.get("steps", []) if ev.startswith(("INS ", "REM ", "GET "))]
+
+
+def handout_stmt_ok(vec0, evs):
+    """python restatement of HandoutOnce (as handout_b computes it)"""
+    live = {gen.parse_order(o)["id"] for o in vec0}
+    for _, ev in evs:
+        f = ev.split(" ")
+        if f[0] == "INS":
+            live.add(gen.parse_order(f[1])["id"])
+        elif f[0] == "REM" and f[2] != "-":
+            if f[1] not in live:
+                return False
+            live.discard(f[1])
+    return True
+
+
+def cells_stmt_ok(vec0, evs, fin):
+    """python restatement of CellsOK /\\ FinalCells (as cells_b / final_cells_b compute them); listings are read as
+    finite maps id -> order (first row of an id counts, as [lookup] does)"""
+    m = {}
+    for o in vec0:
+        m.setdefault(gen.parse_order(o)["id"], o)
+    for _, ev in evs:
+        f = ev.split(" ")
+        if f[0] == "INS":
+            m[gen.parse_order(f[1])["id"]] = f[1]
+        elif f[0] in ("REM", "GET"):
+            if m.get(f[1], "-") != f[2]:
+                return False
+            if f[0] == "REM":
+                m.pop(f[1], None)
+    if fin is not None:
+        fm = {}
+        for o in fin:
+            fm.setdefault(gen.parse_order(o)["id"], o)
+        if fm != m:
+            return False
+    return True
+
+
+def judge_handout(rec, prog, info):
+    """conc.judge_handout AND the extracted handout_b / cells_b + final_cells_b on the same event log and listings:
+    the run fails if any of them rejects."""
+    py = conc.judge_handout(rec, prog, info)
+    d0, vec0 = conc.setup_facts(prog, rec)
+    evs = map_events(info)
+    fin = gen.parse_list(kv(rec["Q"])["vec"]) if rec["Q"] and rec["Q"] != "aborted" else None
+    toks = " ".join("%d~%s" % (tid, ev.replace(" ", "~")) for tid, ev in evs)
+    v1 = CJ.judge("handout", "handout %s %s" % (d0["vec"], toks), handout_stmt_ok(vec0, evs), rec, prog)
+    v2 = CJ.judge("cells", "cells %s %s %s" % (d0["vec"], kv(rec["Q"])["vec"] if fin is not None else "-", toks),
+                   cells_stmt_ok(vec0, evs, fin), rec, prog)
+    if py:
+        return py
+    if v1 is None or v2 is None:
+        return "the extracted judges handout_b / cells_b could not read the map events of this run"
+    if not v1:
+        return "extracted judge handout_b rejects: an order is handed out twice without an insert in between, or without ever being in the map"
+    if not v2:
+        return ("extracted judge cells_b / final_cells_b rejects: a remove / get does not observe the order last inserted under its id, "
+                "or the listing at quiescence is not the map replayed from the event log")
+    return None
+
+
+def drained_stmt_ok(d):
+    """python restatement of Drained (Spec/ConcJudges.v) on the state line after the draining match"""
+    vec = [gen.parse_order(o) for o in gen.parse_list(d["vec"])]
+    return ((int(d["rem"]) == 0 or all(o["vis"] == 0 for o in vec)) and
+            (int(d["cv"]), int(d["ch"]), int(d["cc"])) == (sum(o["vis"] for o in vec), sum(o["hid"] for o in vec), len(vec)))
+
+
+def judge_drain(rec, prog, info):
+    """conc.judge_drain AND the extracted drained_b on the same result of the draining match."""
+    py = conc.judge_drain(rec)
+    if rec["D"] is None or rec["D"] == "panic":
+        return py
+    d = kv(rec["D"])
+    v = CJ.judge("drained", "drained %s %s %s %s %s" % (d["rem"], d["vec"], d["cv"], d["ch"], d["cc"]), drained_stmt_ok(d), rec, prog)
+    if py:
+        return py
+    if v is None:
+        return "the extracted judge drained_b could not read the result of the draining match %s" % rec["D"][-200:]
+    if not v:
+        return ("extracted judge drained_b rejects: the draining match returned with %s remaining and left %s with aggregates (%s,%s,%s)"
+                % (d["rem"], d["vec"][:300], d["cv"], d["ch"], d["cc"]))
+    return None
+
+
+def extra(ck):
+    CJ.obligations(ck)
+    queue_part(ck)
+
+
 def run(tier, seed, replay=None):
     return run_conc_property(
         "C08", tier, seed, replay,
-        judges=[("handed out exactly once", conc.judge_handout),
-                ("draining match", lambda rec, prog, info: conc.judge_drain(rec))],
-        n_quick=2500, n_thorough=60000, extra_obligations=queue_part, flags="drain,mode=O,proj=map+tk")
+        judges=[("handed out exactly once", judge_handout),
+                ("draining match", judge_drain)],
+        n_quick=2500, n_thorough=60000, extra_obligations=extra, flags="drain,mode=O,proj=map+tk")
